@@ -282,22 +282,28 @@ func genC14(c *Ctx) {
 			}
 		}
 		// state through the handler for up/down (slow/hang sleep for seconds: thorough only)
-		for sec := 0; sec < 30; sec += 3 {
+		// every second of the window and both halves of it: the state is that of the *whole* second of the request instant
+		for sec := 0; sec < 30; sec++ {
 			for j := 0; j < np; j++ {
-				pat := strings.Split(tr, ",")[j]
-				st := wantState(pat, 100+sec)
-				if st >= 3 && !c.Thorough() {
-					continue
+				for _, off := range []int{0, 300, 499, 500, 999} {
+					if off != 300 && sec%3 != 0 && !c.Thorough() && off != 500 && off != 999 {
+						continue
+					}
+					pat := strings.Split(tr, ",")[j]
+					st := wantState(pat, 100+sec)
+					if st >= 3 && (!c.Thorough() || off != 300) {
+						continue
+					}
+					nowMS := (100+sec)*1000 + off
+					k := (nowMS - 2999) / 2000
+					u := fmt.Sprintf("/livesim2/traffic_%s/testpic_2s/bu%d/V300/%d.m4s?nowMS=%d", tr, j, k, nowMS)
+					rr := doLive("GET", u)
+					want := map[int]int{1: 200, 2: 404, 3: 200, 4: 503}[st]
+					if rr.code != want {
+						c.Violate("traffic-handler", fmt.Sprintf("pattern %s second %d: status %d, want %d", pat, 100+sec, rr.code, want), []string{"# GET " + u}, nil)
+					}
+					c.Count("traffic-handler-requests")
 				}
-				nowMS := (100+sec)*1000 + 300
-				k := (nowMS - 2300) / 2000
-				u := fmt.Sprintf("/livesim2/traffic_%s/testpic_2s/bu%d/V300/%d.m4s?nowMS=%d", tr, j, k, nowMS)
-				rr := doLive("GET", u)
-				want := map[int]int{1: 200, 2: 404, 3: 200, 4: 503}[st]
-				if rr.code != want {
-					c.Violate("traffic-handler", fmt.Sprintf("pattern %s second %d: status %d, want %d", pat, 100+sec, rr.code, want), []string{"# GET " + u}, nil)
-				}
-				c.Count("traffic-handler-requests")
 			}
 		}
 	}
